@@ -567,6 +567,184 @@ def readstable():
     return rows, written, read
 
 
+
+# ---------------------------------------------------------------------------------------------
+# C01 / C03 / C05 / C08: the explicit one-step schemes as written in intg_rk / intg_expl_euler, as linear forms
+# in {X, t0, k_i.ode, k_i.quad} whose coefficients are monomials  (num/den) * DT^a * DT_control^b
+class _Form:
+    """linear form: {atom: {(a, b): Fraction}} ; the atom '1' carries pure scalars"""
+    def __init__(self, d=None):
+        self.d = d or {}
+
+    @staticmethod
+    def atom(name):
+        from fractions import Fraction
+        return _Form({name: {(0, 0): Fraction(1)}})
+
+    @staticmethod
+    def scalar(c, a=0, b=0):
+        from fractions import Fraction
+        return _Form({'1': {(a, b): Fraction(c)}})
+
+    def is_scalar(self):
+        return set(self.d.keys()) <= {'1'}
+
+    def monomial(self):
+        """(coefficient, a, b) if the form is a single scalar monomial"""
+        if not self.is_scalar() or len(self.d.get('1', {})) != 1:
+            raise ValueError("not a scalar monomial")
+        (ab, c), = self.d['1'].items()
+        return c, ab[0], ab[1]
+
+    def add(self, o, sign=1):
+        out = {k: dict(v) for k, v in self.d.items()}
+        for k, v in o.d.items():
+            t = out.setdefault(k, {})
+            for ab, c in v.items():
+                t[ab] = t.get(ab, 0) + sign * c
+                if t[ab] == 0:
+                    del t[ab]
+            if not t:
+                del out[k]
+        return _Form(out)
+
+    def scale(self, c, a, b):
+        return _Form({k: {(ab[0] + a, ab[1] + b): cc * c for ab, cc in v.items()} for k, v in self.d.items()})
+
+    def mul(self, o):
+        if self.is_scalar():
+            s_, v_ = self, o
+        elif o.is_scalar():
+            s_, v_ = o, self
+        else:
+            raise ValueError("product of two vector forms")
+        out = _Form()
+        for ab, c in s_.d.get('1', {}).items():
+            out = out.add(v_.scale(c, ab[0], ab[1]))
+        return out
+
+    def div(self, o):
+        c, a, b = o.monomial()
+        return self.scale(1 / c, -a, -b)
+
+    def terms(self):
+        out = []
+        for k in sorted(self.d.keys()):
+            for ab in sorted(self.d[k].keys()):
+                c = self.d[k][ab]
+                out.append((k, c.numerator, c.denominator, ab[0], ab[1]))
+        return out
+
+
+def _eval_form(node, env):
+    from fractions import Fraction
+    if isinstance(node, ast.Constant) and isinstance(node.value, (int, float)):
+        return _Form.scalar(Fraction(repr(node.value)))
+    if isinstance(node, ast.Name):
+        if node.id == 'DT':
+            return _Form.scalar(1, 1, 0)
+        if node.id == 'DT_control':
+            return _Form.scalar(1, 0, 1)
+        if node.id in env:
+            return env[node.id]
+        return _Form.atom(node.id)
+    if isinstance(node, ast.Subscript) and isinstance(node.value, ast.Name) and isinstance(node.slice, ast.Constant):
+        return _Form.atom("%s.%s" % (node.value.id, node.slice.value))
+    if isinstance(node, ast.UnaryOp) and isinstance(node.op, ast.USub):
+        return _eval_form(node.operand, env).scale(-1, 0, 0)
+    if isinstance(node, ast.BinOp):
+        a, b = _eval_form(node.left, env), None
+        if isinstance(node.op, ast.Pow):
+            c, pa, pb = a.monomial()
+            n = node.right.value
+            return _Form.scalar(c ** n, pa * n, pb * n)
+        b = _eval_form(node.right, env)
+        if isinstance(node.op, ast.Add):
+            return a.add(b)
+        if isinstance(node.op, ast.Sub):
+            return a.add(b, -1)
+        if isinstance(node.op, ast.Mult):
+            return a.mul(b)
+        if isinstance(node.op, ast.Div):
+            return a.div(b)
+    raise ValueError("unsupported expression: " + ast.unparse(node))
+
+
+def _scheme(fn):
+    """walk the assignments of an intg_* function: stages (x and t argument of every call f(...)), dense coefficients, xf, qf"""
+    env = {}
+    stages = []
+    coeff = coeffq = xf = qf = None
+    for stmt in fn.body:
+        if isinstance(stmt, ast.Assign) and len(stmt.targets) == 1 and isinstance(stmt.targets[0], ast.Name):
+            name, v = stmt.targets[0].id, stmt.value
+            if isinstance(v, ast.Call) and isinstance(v.func, ast.Name) and v.func.id == 'f':
+                kw = {k.arg: k.value for k in v.keywords}
+                stages.append((name, _eval_form(kw['x'], env).terms(), _eval_form(kw['t'], env).terms()))
+            elif isinstance(v, ast.Call) and isinstance(v.func, ast.Name) and v.func.id == 'hcat':
+                forms = [_eval_form(e, env).terms() for e in v.args[0].elts]
+                if name == 'poly_coeff':
+                    coeff = forms
+                elif name == 'poly_coeff_q':
+                    coeffq = forms
+            elif isinstance(v, ast.Call) and isinstance(v.func, ast.Attribute) and v.func.attr == 'sym':
+                continue
+            else:
+                try:
+                    env[name] = _eval_form(v, env)
+                    if name == 'poly_coeff_q':
+                        coeffq = [env[name].terms()]
+                except ValueError:
+                    pass
+        elif isinstance(stmt, ast.Return):
+            outs = stmt.value.args[2].elts
+            xf = _eval_form(outs[0], env).terms()
+            qf = _eval_form(outs[2], env).terms()
+    return stages, coeff, coeffq, xf, qf
+
+
+def rktable():
+    path = os.path.join(REPO, "rockit", "sampling_method.py")
+    tree = ast.parse(open(path).read())
+
+    def lean_terms(ts):
+        return "[" + ", ".join('⟨"%s", %d, %d, %d, %d⟩' % t for t in ts) + "]"
+
+    def lean_list(lst):
+        return "[" + ", ".join(lean_terms(t) for t in lst) + "]"
+    L = ["/-! GENERATED by tools/extract.py from /repo/rockit/sampling_method.py (intg_rk, intg_expl_euler) — do not edit. -/",
+         "namespace Rockit.Generated", "",
+         "/-- one term of a linear form: `(num/den) · DT^dt · DT_control^dtc · sym` -/",
+         "structure Term where", "  sym : String", "  num : Int", "  den : Nat", "  dt : Int", "  dtc : Int", "deriving DecidableEq, Repr", ""]
+    res = {}
+    for fname, pre in (("intg_rk", "rk4"), ("intg_expl_euler", "euler")):
+        fn = _find_function(tree, "SamplingMethod", fname)
+        try:
+            stages, coeff, coeffq, xf, qf = _scheme(fn)
+            ok = True
+        except Exception as ex:
+            stages, coeff, coeffq, xf, qf, ok = [], None, None, None, None, False
+        res[pre] = (stages, coeff, coeffq, xf, qf, ok)
+        L.append("/-- %s (line %d): could every assignment be read as a linear form? -/" % (fname, getattr(fn, "lineno", 0)))
+        L.append("def %sParsed : Bool := %s" % (pre, str(ok and xf is not None and qf is not None).lower()))
+        L.append("/-- state argument of every call of the right-hand side, in order -/")
+        L.append("def %sStageX : List (List Term) := %s" % (pre, lean_list([s_[1] for s_ in stages])))
+        L.append("/-- time argument of every call -/")
+        L.append("def %sStageT : List (List Term) := %s" % (pre, lean_list([s_[2] for s_ in stages])))
+        L.append("def %sXf : List Term := %s" % (pre, lean_terms(xf or [])))
+        L.append("def %sQf : List Term := %s" % (pre, lean_terms(qf or [])))
+        L.append("/-- dense-output columns (`poly_coeff`, `poly_coeff_q`) -/")
+        L.append("def %sCoeff : List (List Term) := %s" % (pre, lean_list(coeff or [])))
+        L.append("def %sCoeffQ : List (List Term) := %s" % (pre, lean_list(coeffq or [])))
+        L.append("")
+    L += ["end Rockit.Generated", ""]
+    path = os.path.join(OUT, "RK.lean")
+    new_src = "\n".join(L)
+    if not os.path.exists(path) or open(path).read() != new_src:
+        open(path, "w").write(new_src)
+    return res
+
+
 _main_inval = main
 
 
@@ -576,6 +754,7 @@ def main():
     infcert()
     clonetable()
     readstable()
+    rktable()
     return rows
 
 
